@@ -896,6 +896,21 @@ def _default_claims():
     add("rdsystem", "state", [("omitted", without(sy, "state")), ("null", with_(sy, "state", None))], P, "default: None/null")
     add("rdsystem", "chemostats", [("omitted", without(sy, "chemostats")), ("null", with_(sy, "chemostats", None))], P,
         "default: None/null (documented under the name chstt_map)")
+    # "a default system state will be generated, based on the species densities" (amount = density of the cell's
+    # environment x volume of the cell) / "according to the species chemostats": the generated values themselves,
+    # on a grid and on a graph whose nodes of one environment have different volumes
+    gnodes = [{"volume": 2, "environment": 1, "units": _ud(2)}, {"volume": "7 fL", "environment": 0},
+              {"volume": 8, "environment": 1, "units": _ud(2)}, {"volume": 5, "environment": 0}]
+    gsp = {"type": "graph", "nodes": gnodes, "edges": [{"nodes": [0, 2], "surface": 3, "distance": 2}], "units": _ud(1)}
+    for nm, base in (("grid", sy), ("graph", with_(sy, "space", gsp))):
+        b = without(without(base, "state"), "chemostats")
+        for p in P:
+            cl.append({"reader": "rdsystem", "key": "state-value", "computed": "state", "parent": p, "loc": nm,
+                       "variants": [("omitted", b), ("null", with_(b, "state", None))],
+                       "doc": "state null/omitted: default state generated from the species densities (density x volume)"})
+            cl.append({"reader": "rdsystem", "key": "chemostats-value", "computed": "chemostats", "parent": p, "loc": nm,
+                       "variants": [("omitted", b), ("null", with_(b, "chemostats", None))],
+                       "doc": "map null/omitted: generated according to the species chemostats"})
     sy1 = without(without(sy, "state"), "chemostats")
     for p in P:
         # the system's own units are explicit here, so the grid must inherit exactly these
@@ -995,6 +1010,25 @@ def check_default(cx, case, out):
             out.append((vkey, "%svariant %s: %s" % (ctx, name, lf.what())))
             return
     cx.count("default_claims_evaluated")
+    if cl.get("computed"):
+        for name, o in objs:
+            cx.evals += 1
+            if cl["computed"] == "state":
+                exp = physical.default_state_si(o.network, o.space)
+                got = physical.q_array(o.state)
+                bad = [i for i in range(max(len(exp), len(got)))
+                       if i >= len(exp) or i >= len(got) or not physical.q_equal(exp[i], got[i])]
+            else:
+                exp = physical.default_chemostats(o.network, o.space)
+                got = [int(v) for v in o.chemostats]
+                bad = [i for i in range(max(len(exp), len(got))) if i >= len(exp) or i >= len(got) or exp[i] != got[i]]
+            if bad:
+                i = bad[0]
+                out.append((vkey, "%svariant %s: generated %s differs from the documented default at %d entr%s, e.g. [%d]: %r, "
+                            "documented %r" % (ctx, name, cl["computed"], len(bad), "y" if len(bad) == 1 else "ies", i,
+                                               got[i] if i < len(got) else None, exp[i] if i < len(exp) else None)))
+                return
+        return
     ref_name, ref = objs[-1]
     for name, o in objs[:-1]:
         tmp = []
@@ -1374,6 +1408,24 @@ def _check(case, tmp=None):
             except Exception as e:  # noqa: BLE001 - the catalogue only holds objects the constructors accept
                 raise AssertionError("checker: catalogue object could not be built: %s: %s\n%s"
                                      % (type(e).__name__, e, traceback.format_exc()[-1500:]))
+            if kind in ("rdscript", "rdtrajectory"):
+                # the system held by a script / trajectory is the system it was built from (the reference is built
+                # directly from the specification, never through a script): a state held in another unit than the
+                # system's, chemostats, spaces ... must not change on the way in
+                sys_spec = case["spec"]["system"] if kind == "rdscript" else case["spec"]["script"]["system"]
+                given = b_system(sys_spec)
+                for nm, held in (("system", obj.system), ("script.system", getattr(getattr(obj, "script", None), "system", None))):
+                    if held is None or (kind == "rdscript" and nm != "system"):
+                        continue
+                    if nm == "script.system" and case["spec"].get("mode") == "simcg":
+                        continue        # the script of a coarse-grained run legitimately holds the coarse-grained system
+                    tmp_out = []
+                    if not _phys(cx, given, held, tmp_out, ""):
+                        for k, w in tmp_out:
+                            parts = k.split(":")
+                            out.append(("%s:%s:system-changed-when-embedded:%s.%s" % (PID, kind, parts[1], parts[3]),
+                                        "[%s] the %s held by the %s differs from the RDSystem it was built from: %s"
+                                        % (kind, nm, kind, w)))
             try:
                 r0 = route.split(":")[0]
                 if r0 in ("dict", "json", "poison"):
@@ -1483,7 +1535,7 @@ GRID_SHAPES = [(1, 1, 1), (2, 1, 1), (3, 2, 1), (2, 3, 2)]
 BCS = []
 for _m in range(8):
     BCS.append(None if _m == 0 else {ax: ("periodical" if _m >> i & 1 else "reflecting") for i, ax in enumerate("xyz")})
-VOL_FORMS = [3, "2.5 pL"]
+VOL_FORMS = [3, "2.5 pL", "1 pL"]          # the last: numerically the reader's default (1) but in other units
 
 
 def grid_spec(shape, envmode, nenv, voli, bci, u, npy=False):
@@ -1498,6 +1550,10 @@ GRAPH_SHAPES = [(1, []), (2, [(0, 1)]), (3, [(0, 1), (2, 1)]), (3, [(0, 1), (1, 
 NODE_VOL = [2, "7 fL", 5]
 EDGE_SURF = [11, "17 cm2", 13]
 EDGE_DIST = [19, 29, "23 nm"]
+# value set 1: numbers equal to what the readers apply to an omitted key (1), in the member's own units and in others
+NODE_VOL1 = ["1 pL", 1, "1 mm3"]
+EDGE_SURF1 = ["1 cm2", 1, "1 nm2"]
+EDGE_DIST1 = [1, "1 mm", "1 nm"]
 
 
 def _own(pattern, gu, k):
@@ -1509,10 +1565,11 @@ def _own(pattern, gu, k):
     return (gu + 1 + k) % 3
 
 
-def graph_spec(shape, npat, epat, nenv, u, npy=False):
+def graph_spec(shape, npat, epat, nenv, u, npy=False, ones=False):
     nn, ed = GRAPH_SHAPES[shape]
-    nodes = [{"volume": NODE_VOL[k], "env": (k + 1) % nenv, "u": _own(npat, u, k)} for k in range(nn)]
-    edges = [{"i": i, "j": j, "surface": EDGE_SURF[k], "distance": EDGE_DIST[k], "u": _own(epat, u, k)}
+    nv, esf, eds = (NODE_VOL1, EDGE_SURF1, EDGE_DIST1) if ones else (NODE_VOL, EDGE_SURF, EDGE_DIST)
+    nodes = [{"volume": nv[k], "env": (k + 1) % nenv, "u": _own(npat, u, k)} for k in range(nn)]
+    edges = [{"i": i, "j": j, "surface": esf[k], "distance": eds[k], "u": _own(epat, u, k)}
              for k, (i, j) in enumerate(ed)]
     return {"kind": "graph", "nodes": nodes, "edges": edges, "u": u, "np": npy}
 
@@ -1568,7 +1625,7 @@ def script_spec(poli, ispi, tmaxi, system, u, seed, pyseed=None, npy=False):
     else:
         t_sample = {"value": [0, 0.25, 1.5], "units": "ms" if k % 4 == 1 else "min"}
     return {"system": system, "t_sample": t_sample, "time_step": [1e-3, 0.25, "15 ms"][k % 3], "t_max": t_max,
-            "policy": POLICIES[poli], "interval": [1, "2 min"][k % 2], "seed": seed, "pyseed": pyseed,
+            "policy": POLICIES[poli], "interval": [1, "2 min", "1 min", "1 ms"][k % 4], "seed": seed, "pyseed": pyseed,
             "isp": ISPS[ispi], "u": u, "np": npy}
 
 
@@ -1631,7 +1688,7 @@ def _spaces(tier, seed):
     def gen_grids():
         for shape in range(4):
             for envmode in (0, 1):
-                for voli in (0, 1):
+                for voli in range(3):
                     for bci in range(8):
                         for u in range(3):
                             for npy in (False, True):
@@ -1639,8 +1696,8 @@ def _spaces(tier, seed):
                                 yield {"sub": "rt", "kind": "rdgridspace", "route": "dict", "spec": spec}
                                 for r in GR:
                                     yield {"sub": "rt", "kind": "rdspace", "route": r, "spec": spec}
-    sp.append(("grids: 4 shapes x 2 environment maps x 2 volume forms x 8 boundary combinations x 3 unit systems x {python, numpy integers} x {direct dict, rdspace dict, json, foreign parent, save/load absolute, relative}",
-               gen_grids, 4 * 2 * 2 * 8 * 3 * 2 * 6, 100))
+    sp.append(("grids: 4 shapes x 2 environment maps x 3 volume forms (number, other units, numerically 1 in other units) x 8 boundary combinations x 3 unit systems x {python, numpy integers} x {direct dict, rdspace dict, json, foreign parent, save/load absolute, relative}",
+               gen_grids, 4 * 2 * 3 * 8 * 3 * 2 * 6, 100))
 
     def gen_grid_ext():
         for shape in (1, 2, 3):
@@ -1671,13 +1728,13 @@ def _spaces(tier, seed):
             for npat in range(3):
                 for epat in range(3):
                     for u in range(3):
-                        for npy in (False, True):
-                            spec = graph_spec(shape, npat, epat, 3, u, npy)
+                        for npy, ones in ((False, False), (True, False), (False, True)):
+                            spec = graph_spec(shape, npat, epat, 3, u, npy, ones)
                             yield {"sub": "rt", "kind": "rdgraphspace", "route": "dict", "spec": spec}
                             for r in GR:
                                 yield {"sub": "rt", "kind": "rdspace", "route": r, "spec": spec}
-    sp.append(("graphs: 4 shapes x 3 node-system patterns x 3 edge-system patterns (own systems differ from the graph's) x 3 graph systems x {python, numpy integers} x 6 routes",
-               gen_graphs, 4 * 3 * 3 * 3 * 2 * 6, 100))
+    sp.append(("graphs: 4 shapes x 3 node-system patterns x 3 edge-system patterns (own systems differ from the graph's) x 3 graph systems x {python ints, numpy ints, volumes / surfaces / distances numerically 1 in own and in other units} x 6 routes",
+               gen_graphs, 4 * 3 * 3 * 3 * 3 * 6, 100))
 
     SR = ["dict", "json", "poison", "abs", "rel"]
     U4 = list(itertools.product(range(3), repeat=4))        # network, members, space, system
